@@ -205,3 +205,21 @@ def run(ctx):
   macro_always_applied(ctx, 'C05.key')
   from .common import bind_always_writes
   bind_always_writes(ctx, 'C05.late')
+
+
+  # ---- C05.duplicates: every member of an enum goes through constant() (which rejects an exact duplicate)
+  ce = ctx.func('config.constants_from_enum')
+  dec = ce.nested.get('decorator') if hasattr(ce, 'nested') else None
+  owner = dec or ce
+  from ..cfg import witness as _w
+  g_e = prog.cfg(owner)
+  loops_e = [n for n in g_e.live_nodes() if n.kind == 'for' and '__members__' in u(n.ast.iter)]
+  calls_e = [n for n in g_e.live_nodes() if any(prog.resolve_call(owner, c_) == 'config.constant' for c_ in calls_of_node(n))]
+  ok_e = bool(loops_e) and bool(calls_e)
+  for lp in loops_e:
+    first = [b for b, k in g_e.succ[lp.id] if k == 'loop']
+    if first and first[0] not in [c_.id for c_ in calls_e] and _w(g_e, first[0], [lp.id], avoid=[c_.id for c_ in calls_e]) is not None:
+      ok_e = False
+  ctx.check(ok_e, 'C05.key', construct(owner), 'every enum member is defined through constant(), which raises for a name that is already defined',
+            'some enum members are skipped before constant() is called: a duplicate definition coming from an enum is silently ignored and the name keeps '
+            'its earlier value', owner.loc(), instance='enum-members-all')
